@@ -20,7 +20,7 @@ DTYPES = {'float64': 'float64', 'double': 'float64', 'float32': 'float32', 'floa
 
 _BUILTIN_NAMES = ['len', 'range', 'zip', 'enumerate', 'reversed', 'list', 'tuple', 'isinstance', 'min', 'max', 'sum',
                   'any', 'all', 'int', 'float', 'complex', 'str', 'print', 'set', 'abs', 'sorted', 'slice', 'bool',
-                  'type', 'super', 'dict', 'round', 'map', 'hasattr', 'getattr', 'id', 'iter', 'next', 'callable', 'divmod']
+                  'type', 'super', 'dict', 'round', 'map', 'hasattr', 'getattr', 'setattr', 'id', 'iter', 'next', 'callable', 'divmod']
 _EXC_NAMES = ['Exception', 'BaseException', 'ValueError', 'TypeError', 'RuntimeError', 'NotImplementedError',
               'IndexError', 'KeyError', 'AttributeError', 'ImportError', 'ModuleNotFoundError', 'ZeroDivisionError',
               'AssertionError', 'ArithmeticError', 'StopIteration', 'NameError']
@@ -471,6 +471,9 @@ def neg(ex, v):
     if isinstance(v, STensor):
         return T.neg(v)
     if isinstance(v, SymScalar):
+        if v.pytype == 'np.uint8':
+            # unsigned numpy scalars wrap around: -np.uint8(3) == np.uint8(253) (a RuntimeWarning only)
+            return SymScalar(z3.If(v.expr == 0, z3.IntVal(0), 256 - v.expr), v.kind, v.pytype)
         return SymScalar(-v.expr, v.kind, v.pytype)
     if is_sym(v):
         return sz(-v)
@@ -860,7 +863,7 @@ def store_subscript(ex, obj, idx, v):
 # attributes of values
 # ------------------------------------------------------------------------------------------------
 
-_TENSOR_METHODS = {'is_floating_point', 'is_complex', 'resolve_conj', 'topk', 'clone', 'detach', 'to', 'cpu', 'cuda', 'numpy', 'numel', 'permute', 'requires_grad_', 't', 'conj',
+_TENSOR_METHODS = {'is_floating_point', 'is_complex', 'resolve_conj', 'is_conj', 'conj_physical', 'topk', 'clone', 'detach', 'to', 'cpu', 'cuda', 'numpy', 'numel', 'permute', 'requires_grad_', 't', 'conj',
                    'backward', 'retain_grad', 'reshape', 'sum', 'item', 'size', 'dim', 'squeeze', 'unsqueeze', 'norm',
                    'copy', 'flatten', 'transpose', 'contiguous', 'double', 'float', 'view', 'abs', 'tolist', 'type', 'index'}
 _LIST_METHODS = {'append', 'copy', 'index', 'count', 'extend', 'insert', 'pop', 'reverse', 'sort', 'remove', 'clear'}
@@ -1201,6 +1204,20 @@ def call_builtin(ex, f, args, kwargs):
             if isinstance(v, I.SObj):
                 return name in v.attrs or v.cls.lookup(name) is not None
             raise OutOfSubset('hasattr on %s' % type(v).__name__)
+        if n == 'getattr':
+            v, name = args[0], args[1]
+            if not isinstance(name, str):
+                raise PyRaise('TypeError', 'attribute name must be string')
+            if isinstance(v, I.SObj) and len(args) == 3:
+                if name in v.attrs or v.cls.lookup(name) is not None:
+                    return ex.getattr(v, name)
+                return args[2]
+            if len(args) == 2:
+                return ex.getattr(v, name)
+            raise OutOfSubset('getattr with a default on %s' % type(v).__name__)
+        if n == 'setattr':
+            ex.setattr(args[0], args[1], args[2])
+            return None
         if n == 'callable':
             return isinstance(args[0], (I.SFunc, I.BoundMethod, I.SClass, I.Ext, I.ExtMethod, BI))
         if n == 'id':
@@ -1372,6 +1389,20 @@ def tensor_method(ex, t, name, args, kwargs):
         return t.dtype in T.FLOATS
     if name == 'is_complex':
         return t.dtype in T.COMPLEX
+    if name == 'is_conj':
+        return bool(getattr(t, 'conj_bit', False))
+    if name == 'conj_physical':
+        # eager conjugation: a new tensor holding conj(values of t), conjugate bit clear (whatever the bit of t is)
+        if t.dtype not in T.COMPLEX:
+            return t                       # real tensors: torch returns the tensor itself
+        val = None
+        if t._val is not None:
+            def val(idx, _t=t):
+                return _t.at(idx).conj()
+        out = STensor(list(t.axes), t.dtype, val, lib=t.lib)
+        T.derive(out, t)
+        out.conj_bit = False
+        return out
     if name == 'resolve_conj':
         if not getattr(t, 'conj_bit', False):
             return t
@@ -1412,6 +1443,8 @@ def tensor_method(ex, t, name, args, kwargs):
     if name == 'retain_grad':
         if not (t.requires_grad or t.deps):
             raise PyRaise('RuntimeError', "can't retain_grad on Tensor that has requires_grad=False", origin='torch')
+        if t.deps:
+            t.retains_grad = True          # non-leaf: backward() will fill its .grad (a no-op on leaves)
         return None
     if name == 'backward':
         return backward(ex, t)
@@ -1427,8 +1460,9 @@ def backward(ex, t):
     if not t.deps and not (t.requires_grad):
         raise PyRaise('RuntimeError', 'element 0 of tensors does not require grad and does not have a grad_fn', origin='torch')
     ex.events.append(('backward', t))
-    for leaf in ex.tracked_leaves():
-        if leaf.tid in t.deps or leaf is t:
+    retained = [c for c in ex._all_tensors() if getattr(c, 'retains_grad', False) and c.deps and (c.tid in getattr(t, 'anc', frozenset()))]
+    for leaf in ex.tracked_leaves() + retained:
+        if leaf.tid in t.deps or leaf is t or leaf in retained:
             old = getattr(leaf, 'grad', None)
             if isinstance(old, STensor):
                 # torch ACCUMULATES into an existing .grad, in place: the same tensor object now holds old + d t / d leaf
@@ -1736,6 +1770,42 @@ def _prod(ex, a, k):
             iv = iv * t.ival([(j,)])
         out.ival = lambda idx: iv
     return T.derive(out, t)
+
+
+@ext('torch.autograd.grad')
+def _autograd_grad(ex, a, k):
+    """assumed contract of torch.autograd.grad(output, inputs, allow_unused=False): one derivative per input, in the order of the inputs;
+    None (allow_unused) / RuntimeError for an input the output was not differentiably derived from; nothing is written to .grad"""
+    out = a[0]
+    inputs = a[1] if len(a) > 1 else k.get('inputs')
+    allow_unused = bool(k.get('allow_unused', False))
+    extra = set(k) - {'inputs', 'allow_unused', 'retain_graph'}
+    if extra or len(a) > 2:
+        raise OutOfSubset('autograd.grad options %s' % sorted(extra))
+    if isinstance(out, (list, tuple)):
+        raise OutOfSubset('autograd.grad of several outputs')
+    single = isinstance(inputs, STensor)
+    ins = [inputs] if single else list(iterate(ex, inputs))
+    if T.numel(out) != 1 and not T.known_eq(T.numel(out), 1):
+        raise PyRaise('RuntimeError', 'grad can be implicitly created only for scalar outputs', origin='torch')
+    if not out.deps and not out.requires_grad:
+        raise PyRaise('RuntimeError', 'element 0 of tensors does not require grad and does not have a grad_fn', origin='torch')
+    res = []
+    for c in ins:
+        if not isinstance(c, STensor):
+            raise PyRaise('TypeError', 'autograd.grad: inputs must be tensors', origin='torch')
+        if not (c.requires_grad or c.deps):
+            raise PyRaise('RuntimeError', 'One of the differentiated Tensors does not require grad', origin='torch')
+        used = (c.is_leaf and c.tid in out.deps) or (not c.is_leaf and c.tid in getattr(out, 'anc', frozenset())) or c is out
+        if not used:
+            if not allow_unused:
+                raise PyRaise('RuntimeError', 'One of the differentiated Tensors appears to not have been used in the graph', origin='torch')
+            res.append(None)
+            continue
+        g = T.opaque_tensor(c.shape, c.dtype, 'grad')
+        g.ghost['grad_of'] = (out, c)
+        res.append(g)
+    return tuple(res)
 
 
 @ext('torch.kron')
